@@ -65,6 +65,7 @@ func init() {
 	native("(*regexp.Regexp).Match", (*regexp.Regexp).Match)
 	native("(*regexp.Regexp).MatchString", (*regexp.Regexp).MatchString)
 	native("(*regexp.Regexp).ReplaceAllString", (*regexp.Regexp).ReplaceAllString)
+	native("(*regexp.Regexp).ReplaceAll", (*regexp.Regexp).ReplaceAll)
 	native("(*regexp.Regexp).String", (*regexp.Regexp).String)
 	native("unicode.IsSpace", unicode.IsSpace)
 	native("unicode.IsUpper", unicode.IsUpper)
